@@ -22,6 +22,7 @@ structure Proj where
   recDesc : Nat
   recRelays : List Nat
   recNid : Nat
+  active : Bool
   last : Option (Nat × Nat)
   msgs : List MsgRow
   hasGroup : Bool
@@ -31,7 +32,7 @@ def proj (c : Cl) : Proj :=
   { path := c.g.path, members := c.g.members, admins := c.g.admins, name := c.g.name, desc := c.g.desc,
     relays := c.g.relays, nid := c.g.nid, props := c.g.props,
     pending := c.g.pending, recEpoch := c.g.recEpoch, recName := c.g.recName, recAdmins := c.g.recAdmins,
-    recDesc := c.g.recDesc, recRelays := c.g.recRelays, recNid := c.g.recNid,
+    recDesc := c.g.recDesc, recRelays := c.g.recRelays, recNid := c.g.recNid, active := c.g.active,
     last := c.g.last, msgs := c.msgs, hasGroup := c.hasGroup }
 
 @[simp] theorem proj_setRec (c : Cl) (n : Nat) (r : Rec) : proj (setRec c n r) = proj c := rfl
@@ -51,6 +52,10 @@ theorem ensureSecret_data (g : GState) :
     (ensureSecret g).desc = g.desc ∧ (ensureSecret g).relays = g.relays ∧ (ensureSecret g).nid = g.nid ∧
     (ensureSecret g).recDesc = g.recDesc ∧ (ensureSecret g).recRelays = g.recRelays ∧ (ensureSecret g).recNid = g.recNid := by
   unfold ensureSecret; split <;> simp
+
+@[simp] theorem ensureSecret_active (g : GState) : (ensureSecret g).active = g.active := by
+  unfold ensureSecret; split <;> simp
+@[simp] theorem withSecret_active (c : Cl) : (withSecret c).g.active = c.g.active := ensureSecret_active c.g
 
 @[simp] theorem ensureSecret_desc (g : GState) : (ensureSecret g).desc = g.desc := (ensureSecret_data g).1
 @[simp] theorem ensureSecret_relays (g : GState) : (ensureSecret g).relays = g.relays := (ensureSecret_data g).2.1
